@@ -260,6 +260,7 @@ func EndedByFault() {
 func init() {
 	vrt.Register("C09_generated_loop_scopes", GeneratedLoopScopes)
 	vrt.Register("C09_generated_function_scopes", GeneratedFunctionScopes)
+	vrt.Register("C09_generated_loop_entered_again", GeneratedLoopEnteredAgain)
 }
 
 func observers(g *gen.G) []*gen.Stmt {
@@ -335,4 +336,21 @@ func GeneratedFunctionScopes() {
 		prog = append(prog, gen.Out(gen.Var("x")), gen.Out(gen.Var("v")))
 	}
 	gen.Check(prog, gen.NewData(2), "names bound inside a function")
+}
+
+// an inner loop entered once per outer iteration: what its body binds must be
+// gone when it is entered again (a "first element" flag tested before it is set)
+func GeneratedLoopEnteredAgain() {
+	p := gen.Profile{Lets: true, LetConds: true, Ifs: true, NoKey: true, Conds: 2, Vals: 2, Pres: 2, Posts: 3, Leafs: 1, Iters: 1}
+	if vrt.Tier() > 0 {
+		p = gen.Profile{Lets: true, LetConds: true, Ifs: true, Ctl: true, Shadow: true, Conds: 4, Vals: 3, Iters: 3}
+	}
+	g := &gen.G{P: p}
+	inner := g.For(gen.Cx{Loop: true, Inner: "e"}, 0)
+	outer := gen.For("", "e", gen.Arr(gen.Var("x"), gen.Lit(7), gen.Var("t")), []*gen.Stmt{gen.Text("("), inner, gen.Text(")")})
+	var prog []*gen.Stmt
+	prog = append(prog, outerLet()...)
+	prog = append(prog, gen.Text("<"), outer, gen.Text(">"))
+	prog = append(prog, observers(g)...)
+	gen.Check(prog, gen.NewData(2), "an inner loop entered again")
 }
